@@ -123,6 +123,9 @@ func pktSummary(p *astits.Packet) Tok {
 	return L(I(int64(p.Header.PID)), I(int64(p.Header.ContinuityCounter)), Bool(p.Header.PayloadUnitStartIndicator), I(int64(len(p.Payload))))
 }
 
+// scenarioAfterCall, when set, runs after every Demuxer call of a scenario (C16 uses it to disturb the payload pool).
+var scenarioAfterCall func()
+
 // demuxRun executes a scenario on the implementation.
 type demuxRun struct {
 	results   []Tok
@@ -130,6 +133,7 @@ type demuxRun struct {
 	consulted []Tok
 	final     Tok
 	// for oracles
+	held      []interface{} // the value each call returned (nil on error), in call order
 	data      []*astits.DemuxerData
 	packets   []*astits.Packet
 	errs      []error
@@ -261,10 +265,18 @@ func runScenario(s scenario) *demuxRun {
 			return resOf(func() Tok { return ToTok(*d) }, err)
 		})
 		out.results = append(out.results, L(r, I(int64(pos()))))
+		if scenarioAfterCall != nil {
+			scenarioAfterCall()
+		}
 		out.data = append(out.data, d)
+		if d != nil {
+			out.held = append(out.held, d)
+		} else {
+			out.held = append(out.held, nil)
+		}
 		out.errs = append(out.errs, err)
 		out.posAt = append(out.posAt, pos())
-		return r.At(0).Int() == 2 || errors.Is(err, astits.ErrNoMorePackets)
+		return r.At(0).Int() == 2 || errors.Is(err, astits.ErrNoMorePackets) || errors.Is(err, errInjected)
 	}
 	nextPacket := func() (stop bool) {
 		var p *astits.Packet
@@ -274,10 +286,18 @@ func runScenario(s scenario) *demuxRun {
 			return resOf(func() Tok { return ToTok(*p) }, err)
 		})
 		out.results = append(out.results, L(r, I(int64(pos()))))
+		if scenarioAfterCall != nil {
+			scenarioAfterCall()
+		}
 		out.packets = append(out.packets, p)
+		if p != nil {
+			out.held = append(out.held, p)
+		} else {
+			out.held = append(out.held, nil)
+		}
 		out.errs = append(out.errs, err)
 		out.posAt = append(out.posAt, pos())
-		return r.At(0).Int() == 2 || errors.Is(err, astits.ErrNoMorePackets)
+		return r.At(0).Int() == 2 || errors.Is(err, astits.ErrNoMorePackets) || errors.Is(err, errInjected)
 	}
 	for _, op := range s.ops {
 		switch op {
